@@ -11,7 +11,8 @@ CONSTANTS
   CacheExp = 2
   TTLs = {1, 3}
   Caps = {1}
-  MaxTime = 5
+  Ticks = {1, 2}
+  MaxTime = 4
   MaxOps = 3
   WebCaseSensitive = FALSE
   WebSkipsSuffix = FALSE
@@ -19,7 +20,8 @@ CONSTANTS
   KeepOldLocal = FALSE
   NoLocalExpiry = FALSE
   NoNamespace = FALSE
+  SplitDNS = TRUE
   KeepHist = FALSE
 VIEW view
-INVARIANTS WebSeesOwnDNS WebOnlyCheckHosts FreshOnSameNode VisibleLocal VisibleStore GoneAfterExpiry StoreBounded
+INVARIANTS WebSeesOwnDNS WebOnlyCheckHosts VisibleLocal StoreBounded
 CHECK_DEADLOCK FALSE
